@@ -88,7 +88,11 @@ class NullLogger:
 
 
 class FakeLogging:
-    DEBUG, INFO, WARNING, ERROR = 10, 20, 30, 40
+    DEBUG, INFO, WARNING, ERROR, CRITICAL = 10, 20, 30, 40, 50
+
+    @staticmethod
+    def basicConfig(**kw):
+        pass
 
     @staticmethod
     def getLogger(name=None):
@@ -476,12 +480,13 @@ class Loader:
                 return m
             if name.startswith('oslo_utils.') and name in self.sym:
                 return self.load(name)
-            if name == 'oslo_utils' and fromlist:
-                # from oslo_utils import x, y
-                pkg = types.ModuleType('oslo_utils')
+            if (name == 'oslo_utils' or name.startswith('oslo_utils.')) \
+                    and fromlist and name not in self.sym:
+                # from oslo_utils[.pkg] import x, y
+                pkg = types.ModuleType(name)
                 real = _b.__import__(name, globals, locals, fromlist, level)
                 for f in fromlist:
-                    full = 'oslo_utils.' + f
+                    full = name + '.' + f
                     if full in self.sym:
                         setattr(pkg, f, self.load(full))
                     elif full == 'oslo_utils._i18n':
